@@ -144,9 +144,9 @@ func (w *World) Apply(e Event) (changed bool, note string) {
 			note = "join refused: " + err.Error()
 			if old != nil {
 				w.Net.Nodes[e.X] = old
-			} else {
-				delete(w.Net.Nodes, e.X)
 			}
+			// otherwise the refused joiner stays reachable (an Inactive process): nodes that
+			// learned its handle during the attempt get "not running" answers from it
 		} else {
 			w.Ring.Nodes = append(w.Ring.Nodes, n)
 			changed = true
